@@ -85,6 +85,21 @@ pub fn run_c03(p: &mut Prng, _t: Tier, i: usize, sink: &mut Sink) {
         }
         w.bump("history.very-large-inputs");
     }
+    if (2..22).contains(&i) {
+        // two signers with different keys on two caller threads, interleaved at the RNG seam
+        let (mut ops_a, sa) = session_ops(p, "pa", "lib", false);
+        let (mut ops_b, sb) = session_ops(p, "pb", "lib", false);
+        let (sign_a, sign_b) = (ops_a.pop().unwrap(), ops_b.pop().unwrap());
+        for op in ops_a.into_iter().chain(ops_b) {
+            w.exec(op);
+        }
+        w.exec(par(sign_a, sign_b, &par_order(p)));
+        if w.slots.contains_key("pa.sig") && w.slots.contains_key("pb.sig") {
+            w.exec(par(verify_op("pa", sa.id.is_some(), "new"), verify_op("pb", sb.id.is_some(), "new"), &par_order(p)));
+        }
+        sink.done(w);
+        return;
+    }
     let nsess = p.range(1, 4);
     let mut queues = vec![];
     for k in 0..nsess {
